@@ -19,6 +19,9 @@ KeyValuePairs = Union[Dict[Any, Any], Sequence[Tuple[Any, Any]]]
 def _iterate_dict_like(iterable: KeyValuePairs) -> List[Tuple[Any, Any]]:
     if isinstance(iterable, dict):
         return list(iterable.items())
+    if hasattr(iterable, "keys"):
+        # any other mapping, like dict.update()
+        return [(key, iterable[key]) for key in iterable.keys()]  # type: ignore
     return list(iterable)
 
 
@@ -76,17 +79,24 @@ class DictProxy(dict):
         """
         return self.cfg is other.cfg and self.dict_field is other.dict_field
 
-    def update(self, iterable: Optional[KeyValuePairs] = None, **kwargs) -> None:
+    def update(*args, **kwargs) -> None:  # pylint: disable=no-method-argument,arguments-differ
+        # like dict.update() the mapping is positional-only: every keyword (even "self" or
+        # "iterable") is an entry to store
+        self, *rest = args
+        if len(rest) > 1:
+            raise TypeError("update expected at most 1 argument, got %d" % len(rest))
+        iterable: Optional[KeyValuePairs] = rest[0] if rest else None
         if iterable:
             if isinstance(iterable, DictProxy) and self._is_compatible_proxy(iterable):
                 for key, value in iterable.items():
-                    super().__setitem__(key, value)
+                    dict.__setitem__(self, key, value)
             else:
-                super().update(
+                dict.update(
+                    self,
                     [
                         self._validate(key, value)
                         for key, value in _iterate_dict_like(iterable)
-                    ]
+                    ],
                 )
 
         for key, value in kwargs.items():
